@@ -41,6 +41,7 @@ def run(facts, rep):
     d2_no_move(facts, rep)
     d3_publication(facts, rep)
     d4_zero_fill(facts, rep)
+    d5_capacity_is_the_allocated_prefix(facts, rep)
     d6_width(facts, rep)
     d7_fresh_poll(facts, rep)
     d8_cleanup_access(facts, rep)
@@ -537,3 +538,99 @@ def d8_cleanup_access(facts, rep):
                    key_extra='zf%s' % node['ln'])
     if nz < 5:
         raise AnalysisBroken('D8: zero_unconstructed_elements call sites: %d (expected >= 5)' % nz)
+
+
+def d5_capacity_is_the_allocated_prefix(facts, rep):
+    """"ranges tile [0,size())" / "later accesses work or throw without touching unallocated memory": size() is
+    min(my_size, capacity()), and growth allocates the LAST segment of a multi-segment range first - so an allocated segment
+    can sit above a missing or failed one (concurrently for a moment, permanently after an allocation failure or a throwing
+    constructor).  capacity() therefore has to be the size of the allocated PREFIX: the index it converts with
+    segment_base() is reached by an ascending scan that starts at 0, advances by one, and advances only past an entry it has
+    found valid - or is the scan bound on the path where the scan found every entry below it valid.  Anything computed from the
+    last allocated segment over-reports and makes size()/end() cover segments that do not exist."""
+    n = 0
+    for fn in facts.get(ST + 'capacity'):
+        defs = Defs(fn)
+        n += 1
+
+        def prefix_var(g, gd, vid):
+            """vid is an ascending validated scan index in g"""
+            ds = [(v, dn) for (v, dn) in gd.value_of if v == vid]
+            if not ds:
+                return False
+            incs = []
+            for v, dn in ds:
+                nd = g.nodes[dn] if dn >= 0 else {}
+                val = gd.value_of.get((v, dn))
+                if nd.get('k') == 'decl' or (nd.get('k') == 'binop' and nd.get('op') == '='):
+                    if val is None or g.cv(val) != 0:
+                        return False
+                elif nd.get('k') == 'unop' and nd.get('op') == '++':
+                    incs.append(dn)
+                elif nd.get('k') == 'binop' and nd.get('op') == '+=' and g.cv(nd['r']) == 1:
+                    incs.append(dn)
+                else:
+                    return False
+            if not incs:
+                return False
+            # every advance is dominated by an edge on which the entry at the index was compared with the failure tag / null
+            # and found to be above it
+            def valid(a, truth):
+                x = g.n(g.strip(a))
+                if x.get('k') != 'binop' or x['op'] not in ('<=', '>', '<', '>=', '==', '!='):
+                    return False
+                sides = (x['l'], x['r'])
+                for i_, sd in enumerate(sides):
+                    if any(g.nodes[y].get('k') == 'index' and g.n(g.strip(g.nodes[y].get('idx', -1))).get('v') == vid for y in g.subtree(sd)):
+                        other = sides[1 - i_]
+                        # (a comparison with null alone does not establish validity: a failed segment holds the non-null tag)
+                        tag = last_member(g, other) == 'segment_allocation_failure_tag'
+                        if not tag:
+                            return False
+                        entry_left = (i_ == 0)
+                        op = x['op']
+                        if not entry_left:
+                            op = {'<=': '>=', '>=': '<=', '<': '>', '>': '<'}.get(op, op)
+                        above = {'>': True, '<=': False, '!=': True, '==': False}.get(op)
+                        if above is None:
+                            return False
+                        return truth == above
+                return False
+            ev = edges_where(g, valid)
+            return bool(ev) and all(dominated_by_edges(g, g.pos_of(i_), ev)[0] for i_ in incs)
+
+        def prefix_expr(g, gd, x, pos, depth=0):
+            xn = g.n(g.strip(x))
+            if xn.get('k') == 'var' and xn.get('local'):
+                if prefix_var(g, gd, xn['v']):
+                    return True
+                # the scan bound, on the path where the scan ran to the bound: `v < bound` was found false, v a prefix index
+                def done(a, truth, w=xn['v']):
+                    c = g.n(g.strip(a))
+                    if c.get('k') != 'binop' or c['op'] not in ('<', '!='):
+                        return False
+                    l, r = g.n(g.strip(c['l'])), g.n(g.strip(c['r']))
+                    return (not truth) and l.get('k') == 'var' and r.get('k') == 'var' and r.get('v') == w and prefix_var(g, gd, l.get('v'))
+                return dominated_by_edges(g, pos, edges_where(g, done))[0]
+            if xn.get('k') == 'call' and depth < 2:
+                h = facts.fns.get(xn.get('fn'))
+                if h is not None and h.q.startswith(D1N):
+                    hd = Defs(h)
+                    rets = [(p2, nd2) for p2, s2, nd2 in h.stmt_elems(('return',)) if 'sub' in nd2]
+                    return bool(rets) and all(prefix_expr(h, hd, nd2['sub'], p2, depth + 1) for p2, nd2 in rets)
+            return False
+        bad = []
+        rets = [(pos, nd) for pos, s, nd in fn.stmt_elems(('return',)) if 'sub' in nd]
+        for pos, nd in rets:
+            c = fn.n(fn.strip(nd['sub']))
+            arg = None
+            if c.get('k') == 'call' and (fn.callee(c['s']) or {}).get('n') == 'segment_base' and c.get('a'):
+                arg = c['a'][0]
+            if arg is None or not prefix_expr(fn, defs, arg, pos):
+                bad.append('line %s: %s' % (nd.get('ln'), fn.path(nd['sub'])))
+        rep.ob('D5', 'K4', fn, 'capacity() is the size of the allocated prefix of the segment table', bool(rets) and not bad,
+               'the value returned is not reached by an ascending scan that advances only past valid entries (%s): with an allocated '
+               'segment above a missing or failed one - growth allocates the last segment of a range first - size() and end() cover '
+               'segments that do not exist' % '; '.join(bad), key_extra='capacity-prefix')
+    if n < 1:
+        raise AnalysisBroken('segment_table::capacity not found')
